@@ -9,15 +9,16 @@ cd $WT || exit 2
 git checkout -q -- . 2>/dev/null
 find . -name contracts_verif.go -delete
 pkgdir=$(python3 -c "import json;print(json.load(open('$S/meta.json'))['demo_pkg_dir'])")
+RACE=$(python3 -c "import json;print('-race' if '-race' in json.load(open('$S/meta.json')).get('demo_run','') else '')")
 demo=$WT/$pkgdir/zz_seed_demo_test.go
 pkgs=$(go list ./... | grep -v /seeds | grep -v mod_test)
 git apply $S/patch.diff || { echo "RESULT $ID patch-does-not-apply"; exit 1; }
 go build ./... || { echo "RESULT $ID does-not-build"; git checkout -q -- .; exit 1; }
 if go test -vet=off -count=1 $pkgs > /tmp/seed_suite_$ID.log 2>&1; then suite=pass; else suite=FAIL; fi
 cp $S/demo_test.go $demo
-if go test -vet=off -count=1 ./$pkgdir/ > /tmp/seed_demo_with_$ID.log 2>&1; then with=pass; else with=fail; fi
+if go test $RACE -vet=off -count=1 ./$pkgdir/ > /tmp/seed_demo_with_$ID.log 2>&1; then with=pass; else with=fail; fi
 git apply -R $S/patch.diff
-if go test -vet=off -count=1 ./$pkgdir/ > /tmp/seed_demo_without_$ID.log 2>&1; then without=pass; else without=fail; fi
+if go test $RACE -vet=off -count=1 ./$pkgdir/ > /tmp/seed_demo_without_$ID.log 2>&1; then without=pass; else without=fail; fi
 rm -f $demo
 git checkout -q -- . ; find . -name contracts_verif.go -delete
 echo "RESULT $ID suite_with_patch=$suite demo_with_patch=$with demo_without_patch=$without"
